@@ -70,7 +70,10 @@ def _prog(depth):
     if depth == 0:
         return st.lists(leaf, max_size=2)
     inner = _prog(depth - 1)
-    ctx = st.builds(lambda u, b: {"s": "ctx", "utype": u[0], "unit": u[1], "body": b}, unit, inner)
+    # "pre": the context-manager object is created once at the start of the program (under the default units) and
+    # entered here - the pattern `e_units = qr.energy_units("1/cm") ... with e_units:` of the library's examples
+    ctx = st.builds(lambda u, b, pre: {"s": "ctx", "utype": u[0], "unit": u[1], "body": b, "pre": pre}, unit, inner,
+                    st.sampled_from([False, False, True]))
     return st.lists(st.one_of(ctx, ctx, leaf), min_size=1, max_size=3)
 
 
@@ -150,6 +153,17 @@ def _check_matrix(case, ctx):
             with qr.energy_units("nm"):
                 cmp("conversion", m.convert_energy_2_current_u(i2), orc.convert(v, u1, "nm"))
             cmp("conversion", qr.convert(lam, "nm", to=u2), orc.convert(lam, "nm", u2))
+            # arrays read in nm: zero stays zero ("zero is interpreted as zero energy"), every other element - also a
+            # negative one such as a resonance coupling - is converted element-wise
+            M = numpy.array([[0.0, 0.0, 0.0], [0.0, v, -abs(case["v2"]) - 1.0], [0.0, -abs(case["v2"]) - 1.0, v + 3.0]])
+            with qr.energy_units(u1):
+                Hn = qr.Hamiltonian(data=M.copy())
+            with qr.energy_units("nm"):
+                got = numpy.array(Hn.data)
+            want = numpy.zeros_like(M)
+            nzm = M != 0.0
+            want[nzm] = orc.convert(M[nzm], u1, "nm")
+            cmp("conversion", got, want, what="Hamiltonian read in nm")
         elif acc == "hamiltonian":
             M = numpy.array([[0.0, case["v2"]], [case["v2"], v]], dtype=float)
             with qr.energy_units(u1):
@@ -346,7 +360,7 @@ class _Abort(Exception):
 def _check_program(case, ctx):
     import quantarhei as qr
     m = qr.Manager()
-    stats = {"depth": 0, "exc": 0}
+    stats = {"depth": 0, "exc": 0, "pre": 0}
     factories = {"energy": qr.energy_units, "frequency": getattr(qr, "frequency_units", None), "length": qr.length_units}
     if factories["frequency"] is None:
         from quantarhei.core.managers import frequency_units
@@ -374,9 +388,24 @@ def _check_program(case, ctx):
                 # "frequency" contexts are documented to behave exactly as energy contexts
                 inner["energy" if utype == "frequency" else utype] = unit
                 pending = None
+                key = (utype, unit)
+                if stm.get("pre") and key not in active:
+                    if key not in precreated:
+                        raise HarnessError("context object not pre-created")
+                    cm = precreated[key]
+                    stats["pre"] += 1
+                else:
+                    cm = factories[utype](unit)
+                    key = None
                 try:
-                    with factories[utype](unit):
-                        run(stm["body"], depth + 1, inner)
+                    if key:
+                        active.add(key)
+                    try:
+                        with cm:
+                            run(stm["body"], depth + 1, inner)
+                    finally:
+                        if key:
+                            active.discard(key)
                 except _Abort as e:
                     stats["exc"] += 1
                     if e.levels > 1 and depth > 0:
@@ -388,6 +417,16 @@ def _check_program(case, ctx):
                     raise HarnessError("stop")
                 if pending:
                     raise pending
+    # context objects that the program enters later are created now, under the default units
+    precreated, active = {}, set()
+
+    def collect(block):
+        for stm in block:
+            if stm["s"] == "ctx":
+                if stm.get("pre") and (stm["utype"], stm["unit"]) not in precreated:
+                    precreated[(stm["utype"], stm["unit"])] = factories[stm["utype"]](stm["unit"])
+                collect(stm["body"])
+    collect(case["body"])
     try:
         run(case["body"], 0, {"energy": "1/fs", "frequency": "1/fs", "length": "A"})
     except HarnessError:
@@ -396,7 +435,7 @@ def _check_program(case, ctx):
         raise HarnessError("abort escaped")
     except Exception as e:
         ctx.fail("context/raises", exc=type(e).__name__, msg=str(e)[:120])
-    ctx.label("program")
+    ctx.label("program", "pre-created-context-objects" if stats["pre"] else "inline-contexts")
     ctx.mark_nontrivial(stats["depth"] >= 2 or stats["exc"] >= 1)
     _units_default(ctx, qr, "program")
 
